@@ -404,17 +404,25 @@ type Contracts struct {
 	Axioms  []*Axiom
 	Lemmas  []*Axiom
 	Files   []string
+	GhostFields map[string]*GhostField
+}
+
+// GhostField: ghost heap field "ghostfield name Sort [of TypeName]" -- state attached to an object (reference).
+type GhostField struct {
+	Name string
+	Sort string
+	Of   string // type name whose struct copies carry the field along
 }
 
 func newContracts() *Contracts {
-	return &Contracts{Funcs: map[string]*FuncContract{}, Ghosts: map[string]*GhostFunc{}}
+	return &Contracts{Funcs: map[string]*FuncContract{}, Ghosts: map[string]*GhostFunc{}, GhostFields: map[string]*GhostField{}}
 }
 
 var clauseKeywords = map[string]bool{
 	"func": true, "loop": true, "requires": true, "ensures": true, "invariant": true, "modifies": true,
 	"property": true, "bind": true, "nopanic": true, "assumed": true, "ghost": true, "pure": true,
 	"axiom": true, "lemma": true, "let": true, "decreases": true, "mode": true, "unproved": true,
-	"package": true, "theory": true, "cases": true, "uses": true, "opt": true, "free": true, "end": true,
+	"package": true, "theory": true, "cases": true, "uses": true, "opt": true, "free": true, "end": true, "ghostfield": true, "purefn": true,
 }
 
 type rawClause struct {
@@ -606,6 +614,20 @@ func (cs *Contracts) parseFile(path string, pkgPath string) error {
 			kv := strings.SplitN(r.text, "=", 2)
 			if len(kv) == 2 && cur != nil {
 				cur.Lets = append(cur.Lets, [2]string{strings.TrimSpace(kv[0]), strings.TrimSpace(kv[1])})
+			}
+		case "ghostfield":
+			f := strings.Fields(r.text)
+			if len(f) < 2 {
+				return fmt.Errorf("%s:%d: ghostfield needs 'name Sort [of Type]'", path, r.line)
+			}
+			gf := &GhostField{Name: f[0], Sort: f[1]}
+			if len(f) >= 4 && f[2] == "of" {
+				gf.Of = f[3]
+			}
+			cs.GhostFields[gf.Name] = gf
+		case "purefn":
+			if cur != nil {
+				cur.Pure = true
 			}
 		case "ghost", "pure":
 			g, err := parseGhost(r.text, path, r.line)
